@@ -73,11 +73,137 @@ fn wrap_call(ty: &str, e: &syn::Expr) -> Option<(String, String)> {
     None
 }
 
-fn single_match<'a>(file: &str, item: &str, f: &'a syn::ImplItemFn) -> R<&'a syn::ExprMatch> {
+thread_local! {
+    /// `const NAME: &str = "lit";` items of the file being translated (any nesting level)
+    static STR_CONSTS: std::cell::RefCell<std::collections::BTreeMap<String, String>> = Default::default();
+}
+
+fn load_consts(f: &syn::File) {
+    struct C(std::collections::BTreeMap<String, String>);
+    impl<'ast> syn::visit::Visit<'ast> for C {
+        fn visit_item_const(&mut self, c: &'ast syn::ItemConst) {
+            if let syn::Expr::Lit(l) = &*c.expr {
+                if let syn::Lit::Str(s) = &l.lit {
+                    self.0.insert(c.ident.to_string(), s.value());
+                }
+            }
+        }
+        fn visit_impl_item_const(&mut self, c: &'ast syn::ImplItemConst) {
+            if let syn::Expr::Lit(l) = &c.expr {
+                if let syn::Lit::Str(s) = &l.lit {
+                    self.0.insert(c.ident.to_string(), s.value());
+                }
+            }
+        }
+    }
+    let mut c = C(Default::default());
+    syn::visit::Visit::visit_file(&mut c, f);
+    STR_CONSTS.with(|m| *m.borrow_mut() = c.0);
+}
+
+/// a string literal, or a named string constant of the file
+fn lit_or_const(e: &syn::Expr) -> Option<String> {
+    match e {
+        syn::Expr::Lit(l) => match &l.lit {
+            syn::Lit::Str(s) => Some(s.value()),
+            _ => None,
+        },
+        syn::Expr::Path(p) if p.qself.is_none() => {
+            let name = p.path.segments.last()?.ident.to_string();
+            STR_CONSTS.with(|m| m.borrow().get(&name).cloned())
+        }
+        syn::Expr::Paren(q) => lit_or_const(&q.expr),
+        syn::Expr::Reference(r) => lit_or_const(&r.expr),
+        _ => None,
+    }
+}
+
+fn block_tail(b: &syn::Block) -> Option<&syn::Expr> {
+    match b.stmts.as_slice() {
+        [syn::Stmt::Expr(e, None)] => Some(e),
+        _ => None,
+    }
+}
+
+/// `if s == L1 { B1 } else if s == L2 { B2 } .. else { E }`  is  `match s { L1 => B1, L2 => B2, .., s => E }`
+fn if_chain_as_match(s: &str, e: &syn::Expr) -> Option<syn::ExprMatch> {
+    let mut arms: Vec<syn::Arm> = Vec::new();
+    let mut cur = e;
+    loop {
+        match cur {
+            syn::Expr::If(i) => {
+                let lit = match &*i.cond {
+                    syn::Expr::Binary(b) if matches!(b.op, syn::BinOp::Eq(_)) => {
+                        let (l, r) = (canon(&b.left), canon(&b.right));
+                        if l == s || l == format!("*{s}") {
+                            lit_or_const(&b.right)?
+                        } else if r == s || r == format!("*{s}") {
+                            lit_or_const(&b.left)?
+                        } else {
+                            return None;
+                        }
+                    }
+                    _ => return None,
+                };
+                let body = block_tail(&i.then_branch)?;
+                arms.push(syn::parse_quote!(#lit => #body,));
+                cur = match &i.else_branch {
+                    Some((_, els)) => match &**els {
+                        syn::Expr::Block(b) => match block_tail(&b.block) {
+                            Some(x) if !matches!(x, syn::Expr::If(_)) => {
+                                let sid = syn::Ident::new(s, proc_macro2::Span::call_site());
+                                arms.push(syn::parse_quote!(#sid => #x,));
+                                break;
+                            }
+                            Some(x) => x,
+                            None => return None,
+                        },
+                        other => other,
+                    },
+                    None => return None,
+                };
+            }
+            _ => return None,
+        }
+    }
+    let sid = syn::Ident::new(s, proc_macro2::Span::call_site());
+    let mut m: syn::ExprMatch = syn::parse_quote!(match #sid {});
+    m.arms = arms;
+    Some(m)
+}
+
+fn single_match(file: &str, item: &str, f: &syn::ImplItemFn) -> R<syn::ExprMatch> {
     if let [syn::Stmt::Expr(syn::Expr::Match(m), None)] = f.block.stmts.as_slice() {
+        // named string constants in literal position (patterns and arm values) read as their literals
+        let mut m = m.clone();
+        for a in m.arms.iter_mut() {
+            if let syn::Pat::Ident(pi) = &a.pat {
+                if pi.subpat.is_none() && pi.by_ref.is_none() {
+                    if let Some(l) = STR_CONSTS.with(|c| c.borrow().get(&pi.ident.to_string()).cloned()) {
+                        a.pat = syn::parse_quote!(#l);
+                    }
+                }
+            } else if let syn::Pat::Path(pp) = &a.pat {
+                if let Some(l) = pp.path.get_ident().and_then(|id| STR_CONSTS.with(|c| c.borrow().get(&id.to_string()).cloned())) {
+                    a.pat = syn::parse_quote!(#l);
+                }
+            }
+            if let Some(l) = lit_or_const(&a.body) {
+                if !matches!(&*a.body, syn::Expr::Lit(_)) {
+                    a.body = Box::new(syn::parse_quote!(#l));
+                }
+            }
+        }
         return Ok(m);
     }
-    fail(file, item, "a body consisting of a single `match` expression")
+    if let [syn::Stmt::Expr(e @ syn::Expr::If(_), None)] = f.block.stmts.as_slice() {
+        if let Some(s) = param_name(f) {
+            if let Some(m) = if_chain_as_match(&s, e) {
+                return Ok(m);
+            }
+        }
+    }
+    fail(file, item, "a body consisting of a single `match` expression (or an `if s == \"lit\" {..} else if .. else {..}` chain)")
 }
 
 fn find_inherent_fn<'a>(f: &'a syn::File, ty: &str, name: &str) -> Option<&'a syn::ImplItemFn> {
@@ -187,8 +313,35 @@ pub fn from_str(file: &str, src: &syn::File, ty: &str) -> R<FromStr> {
     let mut fallback = None;
     let mut rewraps = false;
     for a in &m.arms {
+        // `D::X(e) if e == "lit" => V`: the nested match written as guard arms; text that matches no guard falls to the
+        // outer catch-all, which wraps `D::X(e)` again (= an inner default that re-wraps)
+        if let (Some((_, g)), syn::Pat::TupleStruct(ts)) = (&a.guard, &a.pat) {
+            let segs: Vec<String> = ts.path.segments.iter().map(|x| x.ident.to_string()).collect();
+            if segs.len() == 2 && segs[0] == delegate && ts.elems.len() == 1 {
+                if let (Some(e), syn::Expr::Binary(b)) = (pat_binding(&ts.elems[0]), &**g) {
+                    if matches!(b.op, syn::BinOp::Eq(_)) {
+                        let views = [e.clone(), format!("{e}.as_str()"), format!("{e}.as_ref()"), format!("*{e}"), format!("&*{e}")];
+                        let (l, r) = (canon(&b.left), canon(&b.right));
+                        let lit = if views.contains(&l) { lit_or_const(&b.right) } else if views.contains(&r) { lit_or_const(&b.left) } else { None };
+                        if let Some(lit) = lit {
+                            match &on_variant {
+                                Some(v) if *v != segs[1] => return fail(file, &item, "guard arms on ONE delegate variant"),
+                                _ => on_variant = Some(segs[1].clone()),
+                            }
+                            let body = match &*a.body {
+                                syn::Expr::Block(bl) => block_tail(&bl.block).cloned().unwrap_or_else(|| (*a.body).clone()),
+                                other => other.clone(),
+                            };
+                            arms.push((lit, variant_of(file, &item, ty, &body)?));
+                            rewraps = true;
+                            continue;
+                        }
+                    }
+                }
+            }
+        }
         if a.guard.is_some() {
-            return fail(file, &item, "arms without guards");
+            return fail(file, &item, "arms without guards (other than `D::X(e) if e == \"lit\"`)");
         }
         if let Some(b) = pat_binding(&a.pat) {
             match wrap_call(ty, &a.body) {
@@ -315,7 +468,8 @@ pub fn as_ref(file: &str, src: &syn::File, ty: &str) -> R<AsRef> {
                     _ => return fail(file, &item, "a plain (or `ref`) binding inside the variant"),
                 };
                 let body = canon(&a.body);
-                if body == format!("{b}.as_str()") {
+                if body == format!("{b}.as_str()") || body == b {
+                    // `ext` alone: the `&String` payload coerced to `&str`
                     pass.push((segs[1].clone(), "payload".to_string()));
                 } else if body == format!("{b}.as_ref()") {
                     pass.push((segs[1].clone(), "delegate".to_string()));
@@ -372,6 +526,7 @@ pub fn extract(srcs: &Sources) -> R<String> {
         ("basic.rs", "BasicTokenType", "tokenType"),
     ] {
         let src = srcs.get(file)?;
+        load_consts(src);
         let fs = from_str(file, src, ty)?;
         let ar = as_ref(file, src, ty)?;
         o.push_str(&emit_from(&format!("{stem}FromStr"), &format!("`{ty}::from_str` (src/{file})"), &fs));
